@@ -53,9 +53,10 @@ type (
 )
 
 type Clause struct {
-	Label string
-	E     Expr
-	Src   string
+	Label   string
+	E       Expr
+	Src     string
+	Assumed bool // ensures_assumed: available to callers, not proved of the body (listed as an assumption)
 }
 
 type LoopContract struct {
@@ -518,7 +519,7 @@ func (p *parser) primary() Expr {
 
 // ---- contract file reader
 
-var stmtKeywords = map[string]bool{"functional": true, "trusted": true, "assume_after": true, "iface": true, "package": true, "ghost": true, "pred": true, "def": true, "func": true, "requires": true, "ensures": true,
+var stmtKeywords = map[string]bool{"functional": true, "trusted": true, "assume_after": true, "iface": true, "package": true, "ghost": true, "pred": true, "def": true, "func": true, "requires": true, "ensures": true, "ensures_assumed": true,
 	"modifies": true, "loop": true, "lemma": true, "axiom": true, "opt": true, "inline": true, "pure": true, "use": true}
 
 func readContractFile(path, pkg string) (*ContractFile, error) {
@@ -635,10 +636,13 @@ func readContractFile(path, pkg string) (*ContractFile, error) {
 				return nil, fail(fmt.Errorf("%s outside func", kw))
 			}
 			switch kw {
-			case "requires", "ensures":
+			case "requires", "ensures", "ensures_assumed":
 				cl, err := parseClause(rest)
 				if err != nil {
 					return nil, fail(err)
+				}
+				if kw == "ensures_assumed" {
+					cl.Assumed = true
 				}
 				if kw == "requires" {
 					cur.Requires = append(cur.Requires, cl)
